@@ -120,6 +120,7 @@ def handle (line : String) : String :=
     out id (impl == ["1"]) (b2s (impl == ["1"])) s!"sp-spoilers-{vol}" "-" "1"
   | "sv" :: _ => handleSv "sv" inp impl
   | "pl" :: _ => handleSv "pl" inp impl
+  | "h2" :: _ => handleSv "h2" inp impl
   | "cc" :: _ => handleSv "cc" inp impl
   | "tl" :: _ => handleSv "tl" inp impl
   | _ => bad "?" "unknown-stream"
